@@ -1348,13 +1348,44 @@ func (ec *evalCtx) evalCall(x *ast.CallExpr) (Value, types.Type) {
 			}
 		}
 		ec.fail("rangeiter(): the loop is not a range loop")
+	case "calls":
+		// calls(F): direct calls of F made so far by this activation
+		if len(x.Args) != 1 {
+			ec.fail("calls(FunctionName)")
+		}
+		id, ok := x.Args[0].(*ast.Ident)
+		if !ok {
+			ec.fail("calls(FunctionName)")
+		}
+		return Value{C: []Term{vc.get(ec.cur, "S.calls:"+id.Name, "Int")}}, tUntypedInt
 	case "rangeidx":
 		// number of completed iterations of the slice/array/string range loop we are in (the hidden
 		// index of `for _, x := range s`)
-		if ec.fr == nil || ec.fr.curLoop == nil {
+		if ec.fr == nil {
 			ec.fail("rangeidx() outside a loop")
 		}
-		for _, in := range ec.fr.curLoop.header.Instrs {
+		loop := ec.fr.curLoop
+		if loop == nil && ec.fr.evalPoint != nil {
+			// at a call site (atcall/atsend/atmake): the innermost range loop around it
+			for _, li := range ec.fr.loops {
+				if !li.blocks[ec.fr.evalPoint] {
+					continue
+				}
+				isRange := false
+				for _, in := range li.header.Instrs {
+					if phi, ok := in.(*ssa.Phi); ok && phi.Comment == "rangeindex" {
+						isRange = true
+					}
+				}
+				if isRange && (loop == nil || len(li.blocks) < len(loop.blocks)) {
+					loop = li
+				}
+			}
+		}
+		if loop == nil {
+			ec.fail("rangeidx() outside a loop")
+		}
+		for _, in := range loop.header.Instrs {
 			if phi, ok := in.(*ssa.Phi); ok && phi.Comment == "rangeindex" {
 				return Value{C: []Term{iAdd(ec.fr.val(phi).C[0], "1")}}, tUntypedInt
 			}
@@ -1498,6 +1529,8 @@ type locRef struct {
 	Key      string
 	Sort     string
 	Idx      []Term
+	ElemArr  Term       // non-empty: every element object of this array (slice of structs), family Key
+	ElemT    types.Type // ... whose element type is ElemT
 	All      bool // everything (modifies heap)
 	AllGhost bool // every ghost family (modifies ghost.*)
 }
@@ -1635,7 +1668,13 @@ func (fr *Frame) resolveLoc(m string, pkg *types.Package, env map[string]bound, 
 		case *types.Slice:
 			ek := "M." + typeKey(u.Elem())
 			if _, isS := isStruct(u.Elem()); isS {
-				ec.fail("[*] on a slice of structs is not supported")
+				if _, flat := flatStruct(u.Elem()); !flat {
+					ec.fail("[*] on a slice of structs with embedded structs or arrays is not supported")
+				}
+				for _, c := range comps(u.Elem()) {
+					out = append(out, locRef{Key: structKey(u.Elem()) + c.Suffix, Sort: "(Array Int " + c.Sort + ")", ElemArr: v.C[0], ElemT: u.Elem()})
+				}
+				return out, nil
 			}
 			for _, c := range comps(u.Elem()) {
 				out = append(out, locRef{Key: ek + c.Suffix, Sort: "(Array Int (Array Int " + c.Sort + "))", Idx: []Term{v.C[0]}})
@@ -1714,6 +1753,15 @@ func (fr *Frame) havocLoc(m string, pkg *types.Package, env map[string]bound, st
 			vc.havocAllGhost(st)
 			continue
 		}
+		if l.ElemArr != "" {
+			cur := vc.get(st, l.Key, l.Sort)
+			neu := vc.fresh("havoc."+l.Key, l.Sort)
+			vc.nfresh++
+			q := sym(fmt.Sprintf("el!q%d", vc.nfresh))
+			vc.emit("(assert (forall ((" + q + " Int)) (! (=> (not " + vc.isElemOf(q, l.ElemArr, l.ElemT) + ") (= (select " + neu + " " + q + ") (select " + cur + " " + q + "))) :pattern ((select " + neu + " " + q + ")))))")
+			vc.set(st, l.Key, l.Sort, neu)
+			continue
+		}
 		cur := vc.get(st, l.Key, l.Sort)
 		dims, elem := sortDims(l.Sort)
 		leaf := vc.fresh("havoc."+l.Key, ghostSort(elem, dims-len(l.Idx)))
@@ -1765,6 +1813,12 @@ func (fr *Frame) frameGoal(k string, cur Term, idx []Term, allowed []locRef) Ter
 			return "true"
 		}
 		if l.Key != k {
+			continue
+		}
+		if l.ElemArr != "" {
+			if len(idx) > 0 {
+				alts = append(alts, vc.isElemOf(idx[0], l.ElemArr, l.ElemT))
+			}
 			continue
 		}
 		var eqs []Term
@@ -1944,6 +1998,12 @@ func (fr *Frame) frameObligations(c *Contract, exit *State, kind string) error {
 		}
 		for _, l := range allowed {
 			if l.Key != k {
+				continue
+			}
+			if l.ElemArr != "" {
+				if dims > 0 {
+					alts = append(alts, vc.isElemOf(sk[0], l.ElemArr, l.ElemT))
+				}
 				continue
 			}
 			var eqs []Term
